@@ -510,6 +510,77 @@ def run(prog, rep, tier):
         rep.violation(R168, FN + "|fallbacks", "pathbuf_to_filetype_impl: the fallback at line %s maps unparseable_are_text to (false: %s, true: %s) while the %d other sites map it to (false: %s, true: %s); "
                       "names that end up there are unparsable when passed explicitly and text in a directory walk" % (odd[0][1], odd[0][0][0], odd[0][0][1], len(major[1]), major[0][0], major[0][1]))
 
+    # ------------------------------------------------------------ R16.9 the junk-trimming steps compose
+    # Junk is trimmed from the end and from the start of the name in two steps.  The second step has to
+    # work on what the first one left (flow-sensitively: a definition of the name produced by the first
+    # step reaches the second step's input); if both trim the original name, the later result overwrites
+    # the earlier one and `~wtmp~` keeps one of its junk ends.
+    R169 = rep.rule("R16.9", "the later junk trim takes its input from the result of the earlier one (reaching definitions)")
+    ib_ = prog.body("s4lib::readers::filepreprocessor::pathbuf_to_filetype_impl")
+    trims_ = [c for c in ib_.live_calls() if c.d.split("::")[-1] in ("trim_end_matches", "trim_start_matches", "trim_matches", "trim_end", "trim_start")]
+    if len(trims_) < 2:
+        raise CheckerError("pathbuf_to_filetype_impl: %d trim calls" % len(trims_))
+
+    def _reaching_calls(op_, use_bb, acc, depth=0):
+        if op_[0] == "k" or depth > 40:
+            return
+        l_ = op_[1][0]
+        ds_ = ib_.defs.get(l_, [])
+        dbbs = {d_[0] for d_ in ds_}
+        for dbb, idx_, rv_ in ds_:
+            if len(ds_) > 1:
+                others = dbbs - {dbb}
+                if not (dbb == use_bb or use_bb in ib_.reachable(dbb, others - {use_bb})):
+                    continue
+            if idx_ == "call":
+                if rv_.bb in acc:
+                    continue
+                acc.add(rv_.bb)
+                for a_ in rv_.args:
+                    _reaching_calls(a_, rv_.bb, acc, depth + 1)
+            else:
+                k_ = rv_[0]
+                if k_ == "use":
+                    _reaching_calls(rv_[1], dbb, acc, depth + 1)
+                elif k_ == "cast":
+                    _reaching_calls(rv_[2], dbb, acc, depth + 1)
+                elif k_ in ("ref", "rawptr"):
+                    _reaching_calls(["cp", [rv_[2][0]]], dbb, acc, depth + 1)
+    for t2 in trims_:
+        earlier = [t1 for t1 in trims_ if t1 is not t2 and t2.bb in ib_.reachable_after(t1.bb) and t1.bb not in ib_.reachable_after(t2.bb)]
+        if not earlier:
+            continue
+        acc_ = set()
+        _reaching_calls(t2.args[0], t2.bb, acc_)
+        fed = [t1.line for t1 in earlier if t1.bb in acc_]
+        rep.examined(R169, "%s|%s" % (ib_.path, t2.d.split("::")[-1]), sample={"trim": t2.d.split("::")[-1], "line": t2.line, "earlier_trims": [t1.line for t1 in earlier], "input_comes_from_earlier_trim_at": fed})
+        if not fed:
+            rep.violation(R169, "%s|%s|not-composed" % (ib_.path, t2.d.split("::")[-1]), "pathbuf_to_filetype_impl: %s (line %d) trims a name that no result of the earlier trim (line %d) reaches; with junk at both ends of a bare type word "
+                          "(`~wtmp~`, `.utmp.`) the second step overwrites the first step's result and the file is read as text" % (t2.d.split("::")[-1], t2.line, earlier[0].line))
+
+    # ------------------------------------------------------------ R16.10 the name that is classified is the member's full name
+    # For a tar member the reader is chosen from the member's name.  That has to be the full path the
+    # archive records (GNU long-name / PAX records included), not the 100-byte header field: lifted
+    # from C05 R5.5 (member path source) and R5.10 (whole-path equality).
+    import contextlib as _ctx16, io as _io16
+    import c05 as _c05
+    from common import Report as _Rep16
+    R1610 = rep.rule("R16.10", "tar members are classified by the full member path (from C05 R5.5, R5.10)")
+    _s5 = _Rep16("C05", "quick", dict(rep.meta))
+    _s5.finish = lambda *a, **k: 0
+    with _ctx16.redirect_stdout(_io16.StringIO()):
+        _c05.run(prog, _s5, "quick")
+    _n16 = 0
+    for _rid in ("R5.5", "R5.10"):
+        for _k in sorted(_s5.rules.get(_rid, {}).get("keys", ())):
+            _n16 += 1
+            rep.examined(R1610, "%s|%s" % (_rid, _k), sample={"rule": _rid, "instance": _k})
+    for (_rid, _key, _what, _det) in _s5.violations:
+        if _rid in ("R5.5", "R5.10"):
+            rep.violation(R1610, _key.split("|", 1)[1] + "|" + _rid, _what)
+    if _n16 < 1:
+        raise CheckerError("R16.10: no C05 R5.5/R5.10 instance to lift")
+
     return rep.finish(
         "Static necessary-condition check of the name classifier: the suffix table and the bare-name table agree on every shared type word, every "
         "constructed FileType carries the container variable, every self-call passes the unparseable flag unchanged and Some(container) (the "
